@@ -6,7 +6,7 @@
    Props/C03 as those models land; field validity inside the data units is covered by the
    differential run only (DESIGN.md section 6). *)
 From Coq Require Import ZArith List Bool.
-From VC2 Require Import Model.EncoderSeq Proofs.EncoderSeqProofs.
+From VC2 Require Import Base.PyZ Gen.EncLossless Model.EncoderSeq Proofs.EncoderSeqProofs.
 Import ListNotations.
 Open Scope Z_scope.
 
@@ -22,6 +22,18 @@ Theorem C03_fragment_sizes : forall slices_x slices_y fragment_slice_count : Z,
   1 <= slices_x -> 0 <= slices_y -> 1 <= fragment_slice_count ->
   Forall (fun f => 1 <= f_count f <= fragment_slice_count) (frag_split slices_x slices_y fragment_slice_count).
 Proof. exact frag_split_counts. Qed.
+
+(* lossless HQ pictures of ANY size: with the slice_size_scaler the encoder computes (arithmetic
+   re-extracted from make_transform_data_hq_lossless on every run), every rescaled slice length
+   field fits its 8-bit field and still covers the coefficient bytes, whatever the largest slice
+   component and whatever minimum scaler is requested *)
+Theorem C03_lossless_length_fields_fit : forall minimum max_length len : Z,
+  0 <= len <= max_length ->
+  let s := hq_lossless_slice_size_scaler minimum max_length in
+  let f := hq_lossless_rescaled_length len s in
+  1 <= s /\ minimum <= s /\ 0 <= f <= 255 /\ len <= f * s /\ f * s < len + s
+  /\ hq_lossless_rescaled_length_dom len s = true.
+Proof. exact lossless_lengths_fit. Qed.
 
 Example C03_example : frag_split 3 2 4 = [mkfrag 4 0 0; mkfrag 2 1 1].
 Proof. vm_compute. reflexivity. Qed.
